@@ -14,6 +14,43 @@ from vlib.engine import Check, Verdict, explore
 from vlib import report, netmodel as N, runner as R
 
 
+def structured(tier):
+    S, R, C = "s", "r", "c"
+    th = tier == "thorough"
+    out = []
+    # F1 pipeline + join: channel 0 = data, channel 1 = done
+    for k0 in ("sync", "buf1", "buf2", "buf3"):
+        for k1 in ("sync", "buf2"):
+            for n in range(0, 5):
+                for k in range(0, 5):
+                    for close in (False, True):
+                        prod = tuple([(S, 0)] * n + ([(C, 0)] if close else []) + [(S, 1)])
+                        cons = tuple([(R, 0)] * k + [(S, 1)])
+                        for joins in (1, 2):
+                            main = tuple([(R, 1)] * joins)
+                            out.append(((k0, k1), (main, prod, cons), None))
+                            out.append(((k0, k1), (main, cons, prod), None))
+                        # main is the consumer / the producer itself
+                        out.append(((k0, k1), (tuple([(R, 0)] * k + [(R, 1)]), prod), None))
+                        out.append(((k0, k1), (tuple([(S, 0)] * n + ([(C, 0)] if close else []) + [(R, 1)]), cons), None))
+    # F2 fan-in / F3 fan-out over one data channel
+    for k0 in ("sync", "buf1", "buf2"):
+        for m in (2, 3):
+            for per in (1, 2):
+                for take in range(0, m * per + 2):
+                    out.append(((k0,), (tuple([(R, 0)] * take),) + tuple(tuple([(S, 0)] * per) for _ in range(m)), None))
+                    out.append(((k0,), (tuple([(S, 0)] * take),) + tuple(tuple([(R, 0)] * per) for _ in range(m)), None))
+                    out.append(((k0, "buf3"), (tuple([(S, 0)] * take + [(R, 1)] * m),) + tuple(tuple([(R, 0)] * per + [(S, 1)]) for _ in range(m)), None))
+    # F4 ping-pong over two channels
+    for k0 in ("sync", "buf1"):
+        for k1 in ("sync", "buf1"):
+            for rounds in (1, 2, 3):
+                out.append(((k0, k1), (tuple([(S, 0), (R, 1)] * rounds), tuple([(R, 0), (S, 1)] * rounds)), None))
+                out.append(((k0, k1), (tuple([(R, 1), (S, 0)] * rounds), tuple([(S, 1), (R, 0)] * rounds)), None))
+                out.append(((k0, k1), (tuple([(S, 0), (R, 1)] * rounds), tuple([(S, 1), (R, 0)] * rounds)), None))
+    return out
+
+
 class Net(Check):
     level = "model_checking"
     assumptions = ["fibers switch only inside channel operations, so a line printed right after an operation is atomic with its completion and stdout is the VM's linearisation",
@@ -23,7 +60,7 @@ class Net(Check):
     def __init__(self, pid):
         self.id = pid
         self.rule = ("all networks: (1 channel, 1..3 fibers) and (2 channels, 1..2 fibers) with total operations <= T (T=4 quick, 5 thorough; "
-                     "symmetric fibers merged) x launch placement; plus the nested family (one operation inside a native iterator callback) "
+                     "symmetric fibers merged); structured families beyond that bound (producer/consumer pipelines with 0-4 sends / 0-4 receives joined through a done channel over capacities 0-3, fan-in, fan-out, ping-pong; up to 12 operations); plus the nested family (one operation inside a native iterator callback) "
                      "for T<=3; per network: model explored over all schedules, VM trace replayed against it. non-trivial = network whose "
                      "model has >= 2 fibers interacting on a channel (some receive or blocked send)")
 
@@ -34,6 +71,9 @@ class Net(Check):
                 t = T if not (nch == 2 and nf == 2 and tier == "thorough") else 4
                 for kinds, fibers in N.networks(nch, nf, t):
                     yield (kinds, fibers, None)
+        # structured families beyond the operation bound: producer/consumer pipelines joined through a `done` channel, fan-in, fan-out, ping-pong
+        for spec in structured(tier):
+            yield spec
         # an operation executed inside a callback run by a native (nested interpreter loop shares the scheduler)
         for nch, nf in ((1, 1), (1, 2), (2, 1)):
             for kinds, fibers in N.networks(nch, nf, 3):
@@ -48,7 +88,7 @@ class Net(Check):
     def build(self, spec):
         kinds, fibers, wrap = spec
         OP = {"s": 0, "r": 1, "c": 2}
-        case = {"cmd": "net", "kinds": [{"sync": 0, "buf1": 1, "buf2": 2}[k] for k in kinds],
+        case = {"cmd": "net", "kinds": [{"sync": 0, "buf1": 1, "buf2": 2, "buf3": 3}[k] for k in kinds],
                 "fibers": [[[OP[o], c] for o, c in s] for s in fibers], "wrap": list(wrap) if wrap else None, "step_limit": 300000}
         return [case], None
 
